@@ -323,7 +323,8 @@ def observe(graph, root, fault=0, exc=ValueError, width=79):
         Faults.inv, Faults.fault = 0, 0
         with warnings.catch_warnings():
             warnings.simplefilter('ignore')
-            out2 = P.pformat(wrap(graph, root, objs[root - 1]), width=width)
+            with common.time_limit(20):
+                out2 = P.pformat(wrap(graph, root, objs[root - 1]), width=width)
     res['out'], res['out2'] = out, out2
     res['nolog'] = ob.disabled
     res['obs'] = tokens(pyterm.parse_output(out, recursion_ids=ids))
@@ -458,6 +459,9 @@ def check_c13(chk, args):
     meta = {}
     for i, (g, r) in enumerate(graphs):
         m = {'graph': g, 'root': r}
+        if common.give_up():
+            chk.stage('universe abandoned: prints keep running out of time', graphs_observed=i, of=len(graphs))
+            break
         try:
             o = observe(g, r, width=79 if i % 3 else 1)
         except (Exception, common.Timeout) as e:  # noqa
